@@ -66,6 +66,24 @@ pub struct CscM { pub sh: Ghost<(usize, usize)>, pub es: Ghost<Seq<Tv>> }
 #[verifier::external_body] pub fn csc_from_(x: &CooMatrix) -> (r: CscM) ensures r.sh@ == x.sh@, r.es@ == x.es@ { unimplemented!() }
 impl CscM { #[verifier::external_body] pub fn into(self) -> (r: SpMat) ensures r.sh@ == self.sh@, r.es@ == self.es@ { unimplemented!() } }
 
+#[verifier::external_body] pub fn from_csc_(x: CscM) -> (r: SpMat) ensures r.sh@ == x.sh@, r.es@ == x.es@ { unimplemented!() }
+/// by-value iteration of a Vec (ASSUMED std contract)
+pub struct VOwnIter<T> { pub es: Ghost<Seq<T>>, pub pos: Ghost<int>, pub w: Option<T> }
+#[verifier::external_body] pub fn viter_own_<T>(v: Vec<T>) -> (r: VOwnIter<T>) ensures r.es@ == v@, r.pos@ == 0 { unimplemented!() }
+impl<T> VOwnIter<T> {
+    pub fn into_iter(self) -> (r: Self) ensures r == self { self }
+    #[verifier::external_body] pub fn next(&mut self) -> (r: Option<T>)
+        requires 0 <= old(self).pos@ <= old(self).es@.len()
+        ensures final(self).es@ == old(self).es@,
+            old(self).pos@ < old(self).es@.len() ==> (final(self).pos@ == old(self).pos@ + 1 && r == Some(old(self).es@[old(self).pos@])),
+            old(self).pos@ >= old(self).es@.len() ==> (final(self).pos@ == old(self).pos@ && r.is_none()),
+    { unimplemented!() }
+}
+/// a list of (row, column, value) triples handed to from_entries, as stored-entry triples
+pub open spec fn tv(v: Seq<(usize, usize, ER)>) -> Seq<Tv> { Seq::new(v.len(), |t: int| (v[t].0, v[t].1, v[t].2.v())) }
+/// every entry moved by (di, dj)
+pub open spec fn shl(es: Seq<Tv>, di: int, dj: int) -> Seq<Tv> { Seq::new(es.len(), |t: int| ((es[t].0 + di) as usize, (es[t].1 + dj) as usize, es[t].2)) }
+
 /// does a stored entry of M go into block (bi, bj) of the split at (k, l) (zero values are dropped), and where
 pub open spec fn inblk(e: Tv, k: int, l: int, bi: int, bj: int) -> bool { ((e.0 < k) == (bi == 0)) && ((e.1 < l) == (bj == 0)) && e.2 != r0() }
 pub open spec fn shift(e: Tv, k: int, l: int, bi: int, bj: int) -> Tv { ((e.0 - (if bi == 1 { k } else { 0 })) as usize, (e.1 - (if bj == 1 { l } else { 0 })) as usize, e.2) }
@@ -141,6 +159,99 @@ pub proof fn lemma_bsel_done(es: Seq<Tv>, k: int, l: int, bi: int, bj: int, m: i
         }
     }
 }
+/// the entry list combine_blocks hands to from_entries: the four blocks' stored entries, moved to their quadrant, one block after the other
+pub open spec fn cat4(a: Seq<Tv>, b: Seq<Tv>, c: Seq<Tv>, d: Seq<Tv>, k: int, l: int) -> Seq<Tv> { shl(a, 0, 0) + shl(b, 0, l) + shl(c, k, 0) + shl(d, k, l) }
+/// entry (i, j) of [A B; C D]
+pub open spec fn glue(a: Seq<Tv>, b: Seq<Tv>, c: Seq<Tv>, d: Seq<Tv>, k: int, l: int, i: int, j: int) -> int {
+    if i < k { if j < l { val(a, i, j) } else { val(b, i, j - l) } } else { if j < l { val(c, i - k, j) } else { val(d, i - k, j - l) } }
+}
+/// which block the u-th element of cat4 comes from (0..3), and its index there
+pub open spec fn gq(a: Seq<Tv>, b: Seq<Tv>, c: Seq<Tv>, u: int) -> int { if u < a.len() { 0 } else if u < a.len() + b.len() { 1 } else if u < a.len() + b.len() + c.len() { 2 } else { 3 } }
+pub open spec fn gi(a: Seq<Tv>, b: Seq<Tv>, c: Seq<Tv>, u: int) -> int { if u < a.len() { u } else if u < a.len() + b.len() { u - a.len() } else if u < a.len() + b.len() + c.len() { u - a.len() - b.len() } else { u - a.len() - b.len() - c.len() } }
+pub open spec fn gblk(a: Seq<Tv>, b: Seq<Tv>, c: Seq<Tv>, d: Seq<Tv>, q: int) -> Seq<Tv> { if q == 0 { a } else if q == 1 { b } else if q == 2 { c } else { d } }
+pub open spec fn goff(a: Seq<Tv>, b: Seq<Tv>, c: Seq<Tv>, q: int) -> int { if q == 0 { 0 } else if q == 1 { a.len() as int } else if q == 2 { (a.len() + b.len()) as int } else { (a.len() + b.len() + c.len()) as int } }
+pub open spec fn fits(a: Seq<Tv>, b: Seq<Tv>, c: Seq<Tv>, d: Seq<Tv>, k: int, l: int, m: int, n: int) -> bool {
+    0 <= k <= m && 0 <= l <= n && m <= usize::MAX && n <= usize::MAX && distinct(a) && distinct(b) && distinct(c) && distinct(d)
+    && inside(a, k, l) && inside(b, k, n - l) && inside(c, m - k, l) && inside(d, m - k, n - l)
+}
+pub proof fn lemma_cat_at(a: Seq<Tv>, b: Seq<Tv>, c: Seq<Tv>, d: Seq<Tv>, k: int, l: int, m: int, n: int, u: int)
+    requires fits(a, b, c, d, k, l, m, n), 0 <= u < cat4(a, b, c, d, k, l).len()
+    ensures ({ let q = gq(a, b, c, u); let x = gblk(a, b, c, d, q); let t = gi(a, b, c, u); let e = cat4(a, b, c, d, k, l)[u];
+        0 <= q < 4 && 0 <= t < x.len() && u == goff(a, b, c, q) + t && e.0 == x[t].0 + (if q >= 2 { k } else { 0 }) && e.1 == x[t].1 + (if q % 2 == 1 { l } else { 0 }) && e.2 == x[t].2
+        && ((e.0 >= k) == (q >= 2)) && ((e.1 >= l) == (q % 2 == 1)) && e.0 < m && e.1 < n })
+{
+    let q = gq(a, b, c, u); let x = gblk(a, b, c, d, q); let t = gi(a, b, c, u);
+    assert(cat4(a, b, c, d, k, l).len() == a.len() + b.len() + c.len() + d.len());
+    assert(x[t].0 >= 0 && x[t].1 >= 0);
+}
+pub proof fn lemma_cat_from(a: Seq<Tv>, b: Seq<Tv>, c: Seq<Tv>, d: Seq<Tv>, k: int, l: int, m: int, n: int, q: int, t: int)
+    requires fits(a, b, c, d, k, l, m, n), 0 <= q < 4, 0 <= t < gblk(a, b, c, d, q).len()
+    ensures ({ let u = goff(a, b, c, q) + t; 0 <= u < cat4(a, b, c, d, k, l).len() && gq(a, b, c, u) == q && gi(a, b, c, u) == t })
+{
+    assert(cat4(a, b, c, d, k, l).len() == a.len() + b.len() + c.len() + d.len());
+}
+pub proof fn lemma_glue_distinct(a: Seq<Tv>, b: Seq<Tv>, c: Seq<Tv>, d: Seq<Tv>, k: int, l: int, m: int, n: int)
+    requires fits(a, b, c, d, k, l, m, n)
+    ensures distinct(cat4(a, b, c, d, k, l)), inside(cat4(a, b, c, d, k, l), m, n)
+{
+    let g = cat4(a, b, c, d, k, l);
+    assert forall|u: int| 0 <= u < g.len() implies (#[trigger] g[u]).0 < m && g[u].1 < n by { lemma_cat_at(a, b, c, d, k, l, m, n, u); }
+    assert forall|s1: int, t1: int| 0 <= s1 < t1 < g.len() implies !(#[trigger] g[s1].0 == #[trigger] g[t1].0 && g[s1].1 == g[t1].1) by {
+        lemma_cat_at(a, b, c, d, k, l, m, n, s1); lemma_cat_at(a, b, c, d, k, l, m, n, t1);
+        if gq(a, b, c, s1) == gq(a, b, c, t1) {
+            let x = gblk(a, b, c, d, gq(a, b, c, s1)); let (p1, p2) = (gi(a, b, c, s1), gi(a, b, c, t1));
+            assert(p1 < p2); assert(!(x[p1].0 == x[p2].0 && x[p1].1 == x[p2].1));
+        }
+    }
+}
+/// one block of a duplicate-free entry list: if the segment [off, off + |x|) of g is x moved by (di, dj) and no other element of g lies in
+/// the rectangle [di, di + bm) x [dj, dj + bn), then g and x agree on that rectangle
+pub proof fn lemma_part(g: Seq<Tv>, x: Seq<Tv>, off: int, di: int, dj: int, bm: int, bn: int, i: int, j: int)
+    requires distinct(g), distinct(x), 0 <= off, off + x.len() <= g.len(), 0 <= di, 0 <= dj,
+        forall|t: int| 0 <= t < x.len() ==> g[off + t].0 == (#[trigger] x[t]).0 + di && g[off + t].1 == x[t].1 + dj && g[off + t].2 == x[t].2,
+        forall|u: int| 0 <= u < g.len() && !(off <= u < off + x.len()) ==> !(di <= (#[trigger] g[u]).0 < di + bm && dj <= g[u].1 < dj + bn),
+        di <= i < di + bm, dj <= j < dj + bn,
+    ensures val(g, i, j) == val(x, i - di, j - dj)
+{
+    if has(g, i, j) {
+        let u = pos(g, i, j);
+        assert(off <= u < off + x.len());
+        let t = u - off;
+        assert(g[off + t].0 == x[t].0 + di);
+        lemma_val(x, t); lemma_val(g, u);
+    } else if has(x, i - di, j - dj) {
+        let t = pos(x, i - di, j - dj);
+        assert(g[off + t].0 == x[t].0 + di);
+        assert(has(g, i, j));
+    }
+}
+pub proof fn lemma_glue_val(a: Seq<Tv>, b: Seq<Tv>, c: Seq<Tv>, d: Seq<Tv>, k: int, l: int, m: int, n: int, i: int, j: int)
+    requires fits(a, b, c, d, k, l, m, n), 0 <= i < m, 0 <= j < n, distinct(cat4(a, b, c, d, k, l))
+    ensures val(cat4(a, b, c, d, k, l), i, j) == glue(a, b, c, d, k, l, i, j)
+{
+    let g = cat4(a, b, c, d, k, l);
+    let q = (if i >= k { 2int } else { 0int }) + (if j >= l { 1int } else { 0int });
+    let x = gblk(a, b, c, d, q); let (di, dj) = (if q >= 2 { k } else { 0 }, if q % 2 == 1 { l } else { 0 });
+    let (bm, bn) = (if q >= 2 { m - k } else { k }, if q % 2 == 1 { n - l } else { l });
+    let off = goff(a, b, c, q);
+    assert(g.len() == a.len() + b.len() + c.len() + d.len());
+    assert forall|t: int| 0 <= t < x.len() implies g[off + t].0 == (#[trigger] x[t]).0 + di && g[off + t].1 == x[t].1 + dj && g[off + t].2 == x[t].2 by {
+        lemma_cat_from(a, b, c, d, k, l, m, n, q, t); lemma_cat_at(a, b, c, d, k, l, m, n, off + t);
+    }
+    assert forall|u: int| 0 <= u < g.len() && !(off <= u < off + x.len()) implies !(di <= (#[trigger] g[u]).0 < di + bm && dj <= g[u].1 < dj + bn) by {
+        lemma_cat_at(a, b, c, d, k, l, m, n, u);
+        assert(gq(a, b, c, u) != q);
+    }
+    lemma_part(g, x, off, di, dj, bm, bn, i, j);
+}
+pub proof fn lemma_glue(a: Seq<Tv>, b: Seq<Tv>, c: Seq<Tv>, d: Seq<Tv>, k: int, l: int, m: int, n: int)
+    requires fits(a, b, c, d, k, l, m, n)
+    ensures ({ let g = cat4(a, b, c, d, k, l); distinct(g) && inside(g, m, n) && forall|i: int, j: int| 0 <= i < m && 0 <= j < n ==> #[trigger] val(g, i, j) == glue(a, b, c, d, k, l, i, j) })
+{
+    lemma_glue_distinct(a, b, c, d, k, l, m, n);
+    assert forall|i: int, j: int| 0 <= i < m && 0 <= j < n implies #[trigger] val(cat4(a, b, c, d, k, l), i, j) == glue(a, b, c, d, k, l, i, j) by { lemma_glue_val(a, b, c, d, k, l, m, n, i, j); }
+}
+
 /// block (bi, bj) of M split at (k, l): entry (i, j)
 pub open spec fn blk(m: SpMat, k: int, l: int, bi: int, bj: int, i: int, j: int) -> int { m.at(i + (if bi == 1 { k } else { 0 }), j + (if bj == 1 { l } else { 0 })) }
 
@@ -173,6 +284,147 @@ impl SpMat {
     //@+ post
     //@| lemma_bsel_done(es0, k as int, l as int, 0, 0, m0, n0); lemma_bsel_done(es0, k as int, l as int, 0, 1, m0, n0);
     //@| lemma_bsel_done(es0, k as int, l as int, 1, 0, m0, n0); lemma_bsel_done(es0, k as int, l as int, 1, 1, m0, n0);
+
+    // ---------------------------------------------------------------- from_entries, combine_blocks, concat, stack
+    /// the matrix with the given triples: zero values are dropped; a non-zero value outside the shape does not return (CooMatrix::push);
+    /// for pairwise different positions inside the shape the result has exactly those entries
+    pub fn from_entries(shape: (usize, usize), entries: Vec<(usize, usize, ER)>) -> (r: SpMat)
+//@if B
+        requires inside(tv(entries@), shape.0 as int, shape.1 as int),
+//@endif
+        ensures r.sh@ == shape, r.es@ == bsel(tv(entries@), entries@.len() as int, shape.0 as int, shape.1 as int, 0, 0),
+            forall|t: int| 0 <= t < entries@.len() && (#[trigger] tv(entries@)[t]).2 != r0() ==> tv(entries@)[t].0 < shape.0 && tv(entries@)[t].1 < shape.1,
+            distinct(tv(entries@)) && inside(tv(entries@), shape.0 as int, shape.1 as int) ==> r.wf() && forall|i: int, j: int| 0 <= i < shape.0 && 0 <= j < shape.1 ==> #[trigger] r.at(i, j) == val(tv(entries@), i, j),
+    //@body impl/SpMat/from_entries for_iter=1 loops=1 iter_model=entries! subst=CscMatrix::from:csc_from_,Self::from:from_csc_
+    //@+ sig
+    //@| fn from_entries<T>(shape: (usize, usize), entries: T) -> Self where T: IntoIterator<Item = (usize, usize, R)>
+    //@+ loop 0 header
+    //@| for (i, j, a) in entries
+    //@+ pre-raw
+    //@| let ghost es0 = tv(entries@);
+    //@+ loop 0
+    //@| invariant __it0.es@.len() == es0.len(), tv(__it0.es@) == es0, 0 <= __it0.pos@ <= es0.len(), coo.sh@ == shape,
+    //@|     coo.es@ =~= bsel(es0, __it0.pos@, shape.0 as int, shape.1 as int, 0, 0),
+    //@|     forall|t: int| 0 <= t < __it0.pos@ && (#[trigger] es0[t]).2 != r0() ==> es0[t].0 < shape.0 && es0[t].1 < shape.1,
+//@if B
+    //@|     inside(es0, shape.0 as int, shape.1 as int),
+//@endif
+    //@| ensures __it0.pos@ == es0.len(),
+    //@| decreases es0.len() - __it0.pos@,
+    //@+ loop 0 begin
+    //@| assert(i == es0[__it0.pos@ - 1].0 && j == es0[__it0.pos@ - 1].1 && a.v() == es0[__it0.pos@ - 1].2);
+    //@+ post
+    //@| if distinct(es0) && inside(es0, shape.0 as int, shape.1 as int) { lemma_bsel_done(es0, shape.0 as int, shape.1 as int, 0, 0, shape.0 as int, shape.1 as int); }
+
+    /// [A B; C D] from its four blocks
+    pub fn combine_blocks(blocks: [&SpMat; 4]) -> (r: SpMat)
+        requires blocks@[0].wf(), blocks@[1].wf(), blocks@[2].wf(), blocks@[3].wf(),
+            // stated domain: the combined shape is representable
+            blocks@[0].sh@.0 + blocks@[2].sh@.0 <= usize::MAX, blocks@[0].sh@.1 + blocks@[1].sh@.1 <= usize::MAX,
+//@if B
+            blocks@[0].sh@.0 == blocks@[1].sh@.0, blocks@[2].sh@.0 == blocks@[3].sh@.0, blocks@[0].sh@.1 == blocks@[2].sh@.1, blocks@[1].sh@.1 == blocks@[3].sh@.1,
+//@endif
+        ensures blocks@[0].sh@.0 == blocks@[1].sh@.0, blocks@[2].sh@.0 == blocks@[3].sh@.0, blocks@[0].sh@.1 == blocks@[2].sh@.1, blocks@[1].sh@.1 == blocks@[3].sh@.1,
+            r.wf(), r.sh@ == ((blocks@[0].sh@.0 + blocks@[2].sh@.0) as usize, (blocks@[0].sh@.1 + blocks@[1].sh@.1) as usize),
+            forall|i: int, j: int| 0 <= i < r.sh@.0 && 0 <= j < r.sh@.1 ==> #[trigger] r.at(i, j) == glue(blocks@[0].es@, blocks@[1].es@, blocks@[2].es@, blocks@[3].es@, blocks@[0].sh@.0 as int, blocks@[0].sh@.1 as int, i, j),
+    //@body impl/SpMat/combine_blocks for_iter=1 loops=4 vec_elem=(usize,usize,ER)
+    //@+ sig
+    //@| fn combine_blocks(blocks: [&SpMat<R>; 4]) -> SpMat<R>
+    //@+ loop 0 before-raw
+    //@| let ghost pre = tv(__zout0@);
+    //@+ loop 0
+    //@| invariant x.wf(), __it0.es@ == x.es@, 0 <= __it0.pos@ <= x.es@.len(), (di as int) + x.sh@.0 <= usize::MAX, (dj as int) + x.sh@.1 <= usize::MAX,
+    //@|     tv(__zout0@) =~= pre + shl(x.es@, di as int, dj as int).subrange(0, __it0.pos@),
+    //@| ensures __it0.pos@ == x.es@.len(),
+    //@| decreases x.es@.len() - __it0.pos@,
+    //@+ loop 0 begin-raw
+    //@| let ghost e = x.es@[__it0.pos@ - 1]; let ghost out0 = __zout0@;
+    //@+ loop 0 begin
+    //@| assert(i == e.0 && j == e.1 && r.v() == e.2 && i < x.sh@.0 && j < x.sh@.1);
+    //@+ loop 0 end
+    //@| assert(__zout0@ == out0.push(__y0));
+    //@| assert(tv(__zout0@) =~= tv(out0).push(((i + di) as usize, (j + dj) as usize, e.2)));
+    //@| assert(shl(x.es@, di as int, dj as int).subrange(0, __it0.pos@) =~= shl(x.es@, di as int, dj as int).subrange(0, __it0.pos@ - 1).push(((i + di) as usize, (j + dj) as usize, e.2)));
+    //@+ loop 1 before-raw
+    //@| let ghost pre = tv(__zout0@);
+    //@+ loop 1
+    //@| invariant x.wf(), __it1.es@ == x.es@, 0 <= __it1.pos@ <= x.es@.len(), (di as int) + x.sh@.0 <= usize::MAX, (dj as int) + x.sh@.1 <= usize::MAX,
+    //@|     tv(__zout0@) =~= pre + shl(x.es@, di as int, dj as int).subrange(0, __it1.pos@),
+    //@| ensures __it1.pos@ == x.es@.len(),
+    //@| decreases x.es@.len() - __it1.pos@,
+    //@+ loop 1 begin-raw
+    //@| let ghost e = x.es@[__it1.pos@ - 1]; let ghost out0 = __zout0@;
+    //@+ loop 1 begin
+    //@| assert(i == e.0 && j == e.1 && r.v() == e.2 && i < x.sh@.0 && j < x.sh@.1);
+    //@+ loop 1 end
+    //@| assert(__zout0@ == out0.push(__y1));
+    //@| assert(tv(__zout0@) =~= tv(out0).push(((i + di) as usize, (j + dj) as usize, e.2)));
+    //@| assert(shl(x.es@, di as int, dj as int).subrange(0, __it1.pos@) =~= shl(x.es@, di as int, dj as int).subrange(0, __it1.pos@ - 1).push(((i + di) as usize, (j + dj) as usize, e.2)));
+    //@+ loop 2 before-raw
+    //@| let ghost pre = tv(__zout0@);
+    //@+ loop 2
+    //@| invariant x.wf(), __it2.es@ == x.es@, 0 <= __it2.pos@ <= x.es@.len(), (di as int) + x.sh@.0 <= usize::MAX, (dj as int) + x.sh@.1 <= usize::MAX,
+    //@|     tv(__zout0@) =~= pre + shl(x.es@, di as int, dj as int).subrange(0, __it2.pos@),
+    //@| ensures __it2.pos@ == x.es@.len(),
+    //@| decreases x.es@.len() - __it2.pos@,
+    //@+ loop 2 begin-raw
+    //@| let ghost e = x.es@[__it2.pos@ - 1]; let ghost out0 = __zout0@;
+    //@+ loop 2 begin
+    //@| assert(i == e.0 && j == e.1 && r.v() == e.2 && i < x.sh@.0 && j < x.sh@.1);
+    //@+ loop 2 end
+    //@| assert(__zout0@ == out0.push(__y2));
+    //@| assert(tv(__zout0@) =~= tv(out0).push(((i + di) as usize, (j + dj) as usize, e.2)));
+    //@| assert(shl(x.es@, di as int, dj as int).subrange(0, __it2.pos@) =~= shl(x.es@, di as int, dj as int).subrange(0, __it2.pos@ - 1).push(((i + di) as usize, (j + dj) as usize, e.2)));
+    //@+ loop 3 before-raw
+    //@| let ghost pre = tv(__zout0@);
+    //@+ loop 3
+    //@| invariant x.wf(), __it3.es@ == x.es@, 0 <= __it3.pos@ <= x.es@.len(), (di as int) + x.sh@.0 <= usize::MAX, (dj as int) + x.sh@.1 <= usize::MAX,
+    //@|     tv(__zout0@) =~= pre + shl(x.es@, di as int, dj as int).subrange(0, __it3.pos@),
+    //@| ensures __it3.pos@ == x.es@.len(),
+    //@| decreases x.es@.len() - __it3.pos@,
+    //@+ loop 3 begin-raw
+    //@| let ghost e = x.es@[__it3.pos@ - 1]; let ghost out0 = __zout0@;
+    //@+ loop 3 begin
+    //@| assert(i == e.0 && j == e.1 && r.v() == e.2 && i < x.sh@.0 && j < x.sh@.1);
+    //@+ loop 3 end
+    //@| assert(__zout0@ == out0.push(__y3));
+    //@| assert(tv(__zout0@) =~= tv(out0).push(((i + di) as usize, (j + dj) as usize, e.2)));
+    //@| assert(shl(x.es@, di as int, dj as int).subrange(0, __it3.pos@) =~= shl(x.es@, di as int, dj as int).subrange(0, __it3.pos@ - 1).push(((i + di) as usize, (j + dj) as usize, e.2)));
+    //@+ after-let entries
+    //@| assert(tv(entries@) =~= cat4(a.es@, b.es@, c.es@, d.es@, k as int, l as int));
+    //@| lemma_glue(a.es@, b.es@, c.es@, d.es@, k as int, l as int, m as int, n as int);
+
+    #[verifier::external_body] pub fn zero(shape: (usize, usize)) -> (r: SpMat) ensures r.sh@ == shape, r.es@.len() == 0 { unimplemented!() }
+    /// [A B]
+    pub fn concat(&self, b: &SpMat) -> (r: SpMat)
+        requires self.wf(), b.wf(), self.sh@.1 + b.sh@.1 <= usize::MAX,
+//@if B
+            self.sh@.0 == b.sh@.0,
+//@endif
+        ensures self.sh@.0 == b.sh@.0, r.wf(), r.sh@ == (self.sh@.0, (self.sh@.1 + b.sh@.1) as usize),
+            forall|i: int, j: int| 0 <= i < r.sh@.0 && 0 <= j < r.sh@.1 ==> #[trigger] r.at(i, j) == (if j < self.sh@.1 { self.at(i, j) } else { b.at(i, j - self.sh@.1) }),
+    //@body impl/SpMat/concat subst=SpMat::zero:SpMat::zero
+    //@+ sig
+    //@| fn concat(&self, b: &Self) -> Self
+    //@+ closure 0 typed
+    //@| m: usize, n: usize
+    //@+ closure 0
+    //@| -> (z: SpMat) ensures z.sh@ == (m, n), z.es@.len() == 0
+    /// [A; B]
+    pub fn stack(&self, b: &SpMat) -> (r: SpMat)
+        requires self.wf(), b.wf(), self.sh@.0 + b.sh@.0 <= usize::MAX,
+//@if B
+            self.sh@.1 == b.sh@.1,
+//@endif
+        ensures self.sh@.1 == b.sh@.1, r.wf(), r.sh@ == ((self.sh@.0 + b.sh@.0) as usize, self.sh@.1),
+            forall|i: int, j: int| 0 <= i < r.sh@.0 && 0 <= j < r.sh@.1 ==> #[trigger] r.at(i, j) == (if i < self.sh@.0 { self.at(i, j) } else { b.at(i - self.sh@.0, j) }),
+    //@body impl/SpMat/stack subst=SpMat::zero:SpMat::zero
+    //@+ sig
+    //@| fn stack(&self, b: &Self) -> Self
+    //@+ closure 0 typed
+    //@| m: usize, n: usize
+    //@+ closure 0
+    //@| -> (z: SpMat) ensures z.sh@ == (m, n), z.es@.len() == 0
 
     // ---------------------------------------------------------------- extract and its clients
     /// ASSUMED (from_entries over `self.iter().filter_map(..)`, lazy adaptors): for a position map f that is a function and injective where it
